@@ -24,7 +24,7 @@ DOC1 = "http://r.test/doc.json"
 DOC2 = "http://r.test/two.json"
 META_IDS = {3: "http://json-schema.org/draft-03/schema", 4: "http://json-schema.org/draft-04/schema",
             6: "http://json-schema.org/draft-06/schema", 7: "http://json-schema.org/draft-07/schema"}
-KEYS = ["a", "b", "c", "d", "e", "m", "n", "s"]
+KEYS = ["a", "b", "c", "d", "e", "m", "n", "s", "t"]
 
 
 def schema_for(d):
@@ -37,6 +37,7 @@ def schema_for(d):
         "m": {"$ref": META_IDS[d] + "#/properties/maxLength" if d in (3, 4) else META_IDS[d] + "#/definitions/nonNegativeInteger"},
         "n": {"$ref": META_IDS[7] + "#/definitions/nonNegativeInteger"},
         "s": {"$ref": "http://s.test/in-store.json#/definitions/a"},
+        "t": {"$ref": "http://s.test/hash.json#/definitions/a"},          # supplied in the store under the spelling "...json#"
     }}
 
 
@@ -56,6 +57,8 @@ def oracle(d, key, val):
         return [] if val >= 0 else ["minimum"]
     if key == "n":
         return [] if val >= 0 else ["minimum"]
+    if key == "t":
+        return [] if val <= 3000 else ["maximum"]
     return [] if val <= 300 else ["maximum"]
 
 
@@ -102,7 +105,8 @@ def history(d, n, cache_kind="default"):
             from urllib.parse import urljoin
             kw = dict(urljoin_cache=lru_cache(1)(urljoin))
         r = RefResolver.from_schema(schema, id_of=cls.ID_OF, handlers={"http": handler}, cache_remote=cache_remote,
-                                    store={"http://s.test/in-store.json": {"definitions": {"a": {"maximum": 300}}}}, **kw)
+                                    store={"http://s.test/in-store.json": {"definitions": {"a": {"maximum": 300}}},
+                                           "http://s.test/hash.json#": {"definitions": {"a": {"maximum": 3000}}}}, **kw)
         if cache_kind == "passthrough":
             r._remote_cache = r.resolve_from_url
         elif cache_kind == "tiny":
@@ -127,7 +131,7 @@ def history(d, n, cache_kind="default"):
                     tag = "fault-surfaced"
                 except Exception as e:
                     raise HarnessEscape(type(e).__name__)
-                if key in ("m", "n", "s") and (len(log) != n0 or got == "RRE"):
+                if key in ("m", "n", "s", "t") and (len(log) != n0 or got == "RRE"):
                     return False, "metaschema-fetched"          # served locally, always
                 if got == "RRE":
                     # only a handler failure may surface, and it must have happened during this operation
